@@ -44,9 +44,11 @@
 -/
 namespace Pcore.Reflect
 
-/-- a literal written in a struct tag (`value=>…`) -/
+/-- a literal written in a struct tag (`value=>…`): integer, float (IEEE bits of the float64), 'string', true / false,
+    undef, array `[l,…]` (`anil` / `acons`), hash with string keys `{'k'=>l,…}` (`hnil` / `hcons`) -/
 inductive Lit where
-  | int (i : Int) | str (s : String) | bool (b : Bool)
+  | int (i : Int) | flt (bits : Nat) | str (s : String) | bool (b : Bool) | undef
+  | anil | acons (h t : Lit) | hnil | hcons (k v t : Lit)
   deriving DecidableEq, Repr, Inhabited
 
 /-- what the `puppet:"…"` tag of a struct field says (reflector.go ReflectFieldTags) plus the field's `Anonymous` flag -/
@@ -95,6 +97,54 @@ inductive Ty where
   /-- the object type derived from (and registered for) the struct type `S` -/
   | obj (S : GoTy)
   deriving DecidableEq, Repr, Inhabited
+
+def lookupAttr (n : String) : List (Val × Val) → Option Val
+  | [] => none
+  | (k, w) :: r => match k with
+    | .str s => if s = n then some w else lookupAttr n r
+    | _ => lookupAttr n r
+
+/-- `==` of two floats that are not NaN, on bits: the same bits, or +0 and -0 -/
+def fEq (a b : Nat) : Bool := a == b || (a % 2 ^ 63 == 0 && b % 2 ^ 63 == 0)
+
+/-- the pcore value of a tag literal -/
+def Lit.toVal : Lit → Val
+  | .int i => .int i | .flt b => .flt b | .str s => .str s | .bool b => .bool b | .undef => .undef
+  | .anil => .arr []
+  | .acons h t => match toVal t with
+    | .arr es => .arr (toVal h :: es)
+    | _ => .arr [toVal h]
+  | .hnil => .hsh []
+  | .hcons k v t => match toVal t with
+    | .hsh es => .hsh ((toVal k, toVal v) :: es)
+    | _ => .hsh [(toVal k, toVal v)]
+
+def Lit.len : Lit → Nat
+  | .acons _ t => t.len + 1
+  | .hcons _ _ t => t.len + 1
+  | _ => 0
+
+mutual
+/-- `Value.Equals` between a declared default and a value: integertype.go / floattype.go (`==`: +0 equals -0) /
+    stringtype.go / booleantype.go / undeftype.go Equals, arraytype.go Equals (element by element), hashtype.go Equals
+    (same number of entries, every entry found under its key with an equal value: the order does not matter) -/
+def litEq : Lit → Val → Bool
+  | .int a, .int b => a == b
+  | .flt a, .flt b => fEq a b
+  | .str a, .str b => a == b
+  | .bool a, .bool b => a == b
+  | .undef, .undef => true
+  | .anil, .arr [] => true
+  | .acons h t, .arr (x :: xs) => litEq h x && litEq t (.arr xs)
+  | .hnil, .hsh es => es.isEmpty
+  | .hcons (.str s) v t, .hsh es =>
+      t.len + 1 == es.length && (match lookupAttr s es with | some w => litEq v w | none => false) && hashIn t es
+  | _, _ => false
+def hashIn : Lit → List (Val × Val) → Bool
+  | .hnil, _ => true
+  | .hcons (.str s) v t, es => (match lookupAttr s es with | some w => litEq v w | none => false) && hashIn t es
+  | _, _ => false
+end
 
 def bitsOf (w : Nat) : Nat := if w = 0 then 64 else w
 
@@ -473,33 +523,41 @@ def TaOK (via : Bool) : GoTy → GoVal → Bool
 structure Field where
   name : String
   ty : GoTy
-  dflt : Option Val := none
+  dflt : Option Lit := none
   goName : String := ""
   deriving Repr, Inhabited
 
-/-- the attribute's value (`HasValue`): the declared default, else the implicit undef of a pointer field -/
-def Field.default (f : Field) : Option Val :=
+/-- the literal of the attribute's value: the declared default, else the implicit undef of a pointer field -/
+def Field.dlit (f : Field) : Option Lit :=
   match f.dflt with
   | some d => some d
   | none => match f.ty with
     | .ptr _ => some .undef
     | _ => none
 
+/-- the attribute's value (`HasValue`) -/
+def Field.default (f : Field) : Option Val := f.dlit.map Lit.toVal
+
 def Field.isOpt (f : Field) : Bool := f.default.isSome
 
-/-- `Value.Equals` between a declared default (integer / string / boolean / undef) and a value -/
-def scalarEq : Val → Val → Bool
-  | .int a, .int b => a == b
-  | .str a, .str b => a == b
-  | .bool a, .bool b => a == b
-  | .undef, .undef => true
-  | _, _ => false
-
-/-- `attr.Default(v)` -/
+/-- `attr.Default(v)` = `value != nil && value.Equals(v)` -/
 def Field.isDefault (f : Field) (v : Val) : Bool :=
-  match f.default with
-  | some d => scalarEq d v
+  match f.dlit with
+  | some d => litEq d v
   | none => false
+
+/-- a literal that `Equals` only its own value: no float zero (+0 equals -0) and no hash of several entries (their
+    order does not matter to `Equals`) inside it -/
+def Lit.exact : Lit → Bool
+  | .flt b => b % 2 ^ 63 != 0
+  | .acons h t => h.exact && t.exact
+  | .hcons k v t => (match t with | .hnil => true | _ => false) && (match k with | .str _ => true | _ => false) && v.exact
+  | _ => true
+
+def Field.exactDflt (f : Field) : Bool :=
+  match f.dflt with
+  | some d => d.exact
+  | none => true
 
 def fieldVal (fv : Field × GoVal) : Val := wrap false fv.1.ty fv.2
 
@@ -513,12 +571,6 @@ def initHash (fvs : List (Field × GoVal)) : List (Val × Val) :=
 /-- the hash with every attribute given -/
 def fullHash (fvs : List (Field × GoVal)) : List (Val × Val) :=
   (attrOrder (·.1) fvs).map fun fv => (.str fv.1.name, fieldVal fv)
-
-def lookupAttr (n : String) : List (Val × Val) → Option Val
-  | [] => none
-  | (k, w) :: r => match k with
-    | .str s => if s = n then some w else lookupAttr n r
-    | _ => lookupAttr n r
 
 def knownKey (fs : List Field) : Val → Bool
   | .str s => fs.any fun f => f.name = s
@@ -586,17 +638,19 @@ def newPos (r32 : Nat → Nat) (fs : List Field) (args : List Val) : Option (Lis
   let attrs := attrOrder id fs
   if posCheck attrs args then (setValues r32 attrs args).bind (structOf fs) else none
 
-def dfltOK (f : Field) : Bool :=
-  match f.dflt with
-  | none => true
-  | some (.int _) => (match f.ty with | .int _ => true | .uint _ => true | .ptr (.int _) => true | .ptr (.uint _) => true | _ => false)
-  | some (.str _) => (match f.ty with | .string => true | .ptr .string => true | _ => false)
-  | some (.bool _) => (match f.ty with | .bool => true | .ptr .bool => true | _ => false)
-  | some _ => false
+/-- a tag literal without a NaN -/
+def Lit.noNaN : Lit → Bool
+  | .flt b => b < 2 ^ 64 && !isNaN b
+  | .acons h t => h.noNaN && t.noNaN
+  | .hcons k v t => k.noNaN && v.noNaN && t.noNaN
+  | _ => true
 
+/-- a field inside the model: a modelled type, not itself an interface{}, and a declared default that the attribute type
+    accepts (attribute.go: the type derivation asserts it; so integers only on integer fields within the width's range,
+    arrays on slices / Go arrays, string-keyed hashes on maps, undef only on pointers …) -/
 def flatField (f : Field) : Bool :=
-  Modelled f.ty && (match f.ty with | .iface => false | _ => true) && dfltOK f &&
-  (match f.dflt with | some d => inst (typeOf f.ty) d | none => true)
+  Modelled f.ty && (match f.ty with | .iface => false | _ => true) &&
+  (match f.dflt with | some d => d.noNaN && inst (typeOf f.ty) d.toVal | none => true)
 
 /-! ### struct types as terms: fields, tags, embedding
 
@@ -617,11 +671,8 @@ def lowerFirstL : List Char → List Char
 /-- issue.FirstToLower: the first character that is not an underscore is lower-cased -/
 def lowerFirst (s : String) : String := String.ofList (lowerFirstL s.toList)
 
-def Lit.toVal : Lit → Val
-  | .int i => .int i | .str s => .str s | .bool b => .bool b
-
 def fieldOfDecl (n : String) (tg : FTag) (ft : GoTy) : Field :=
-  { name := tg.attr.getD (lowerFirst n), ty := ft, dflt := tg.dflt.map Lit.toVal, goName := n }
+  { name := tg.attr.getD (lowerFirst n), ty := ft, dflt := tg.dflt, goName := n }
 
 /-- the fields of a struct type, every one as an attribute -/
 def declFields : GoTy → List Field
@@ -677,5 +728,30 @@ def newNamedS (r32 : Nat → Nat) (S : GoTy) (ih : List (Val × Val)) : Option G
 
 def newPosS (r32 : Nat → Nat) (S : GoTy) (args : List Val) : Option GoVal :=
   (newPos r32 (attrsOf S) args).map (rebuild S)
+
+/-! ### reflect.DeepEqual on Go values (NaN is outside the quantifier): floats by `==`, so +0 and -0 are equal -/
+mutual
+def goEq : GoVal → GoVal → Bool
+  | .int a, .int b => a == b
+  | .flt a, .flt b => fEq a b
+  | .str a, .str b => a == b
+  | .bool a, .bool b => a == b
+  | .nil, .nil => true
+  | .slice a, .slice b => goEqL a b
+  | .arr a, .arr b => goEqL a b
+  | .st a, .st b => goEqL a b
+  | .map a, .map b => goEqM a b
+  | .ptr a, .ptr b => goEq a b
+  | .iface s a, .iface t b => s == t && goEq a b
+  | _, _ => false
+def goEqL : List GoVal → List GoVal → Bool
+  | [], [] => true
+  | x :: xs, y :: ys => goEq x y && goEqL xs ys
+  | _, _ => false
+def goEqM : List (GoVal × GoVal) → List (GoVal × GoVal) → Bool
+  | [], [] => true
+  | (k, x) :: xs, (l, y) :: ys => goEq k l && goEq x y && goEqM xs ys
+  | _, _ => false
+end
 
 end Pcore.Reflect
